@@ -91,19 +91,6 @@ func (fr *Frame) applyContract(s *State, c *Contract, callee *types.Func, recv *
 			fr.extendHeaps(s, rh, old)
 		}
 	}
-	// ghost-set effects (evaluated on the pre-state values of object and element)
-	for _, ga := range c.GhostAdds {
-		genv := &SpecEnv{eng: fr.eng, vc: fr.vc, s: pre, old: pre, names: names, pkg: cpkg, side: &side, fr: fr}
-		ov := genv.eval(ga.Obj.E)
-		ev := genv.eval(ga.Elem.E)
-		if genv.err != nil {
-			fr.vc.failed = fmt.Errorf("contract %s: ghostadd: %v", c.Key, genv.err)
-			return fr.freshResults(s, sig.Results())
-		}
-		hn, hs := ghostHeap(ga.Set)
-		h := s.heap(hn, hs)
-		s.setHeap(hn, hs, fmt.Sprintf("(store %s %s (store (select %s %s) %s true))", h, ov.S, h, ov.S, ev.S))
-	}
 	// results
 	var results []*Val
 	for i := 0; i < sig.Results().Len(); i++ {
@@ -126,6 +113,18 @@ func (fr *Frame) applyContract(s *State, c *Contract, callee *types.Func, recv *
 		}
 		side = side[:0]
 		s.assume(t)
+	}
+	// ghost-set effects: object and element may mention the results (e.g. "added only when the call succeeded")
+	for _, ga := range c.GhostAdds {
+		ov := env2.eval(ga.Obj.E)
+		ev := env2.eval(ga.Elem.E)
+		if env2.err != nil {
+			fr.vc.failed = fmt.Errorf("contract %s: ghostadd: %v", c.Key, env2.err)
+			return results
+		}
+		hn, hs := ghostHeap(ga.Set)
+		h := s.heap(hn, hs)
+		s.setHeap(hn, hs, fmt.Sprintf("(store %s %s (store (select %s %s) %s true))", h, ov.S, h, ov.S, ev.S))
 	}
 	return results
 }
@@ -305,7 +304,11 @@ func (fr *Frame) havocDesignator(s, pre *State, c *Contract, f *types.Func, d st
 			return err
 		}
 		for k, v := range hs {
-			s.havocHeap(k, v)
+			if strings.HasPrefix(k, "Q:") {
+				s.growGhost(k, v) // ghost sets only grow
+			} else {
+				s.havocHeap(k, v)
+			}
 		}
 		return nil
 	}
